@@ -100,6 +100,26 @@ def run_unit(name, factory, canaries=True, rlimit=30):
             cl = U.classify(g, res)
         out['tried_body'] = sorted(tried - rejected)
         out['tried_body_rejected'] = sorted(rejected)
+    # front-end errors that can be pinned on single functions: those functions are demoted to bodiless (contract assumed,
+    # function undecided) and the unit is verified again, so one rewritten function does not blind the whole unit
+    demoted = set()
+    fids = set(f['id'] for f in g.functions if f['has_body'] and not f['external_body'])
+    for round_ in range(3):
+        bad = set(i['fn'] for i in cl['infra'] if i.get('fn') in fids and 'esource limit' not in i['message'] and 'rlimit' not in i['message'])
+        bad -= demoted
+        if not bad:
+            break
+        demoted |= bad
+        X.DEMOTED.update(bad)
+        try:
+            g2 = U.build(factory())
+        except X.InfraError as e:
+            break
+        res2 = U.run_verus(g2, rlimit=rlimit)
+        cl2 = U.classify(g2, res2)
+        out.setdefault('demoted_reason', {}).update(dict((i['fn'], i['message'][:200]) for i in cl['infra'] if i.get('fn') in bad))
+        g, res, cl = g2, res2, cl2
+    out['demoted'] = sorted(demoted)
     out.update({'g': g, 'res': res, 'cl': cl})
     out['reached'] = reached_fns(name, g, res)
     if res['json'] is None or res['vir_error'] or cl['infra']:
@@ -181,8 +201,10 @@ def obligations_for(prop, ur):
     reached = ur.get('reached')
     body_fns = set(f['id'] for f in g.functions if f['has_body'] and not f['external_body'])
 
+    demoted = set(ur.get('demoted') or []) | set(f['id'] for f in g.functions if f['id'] in X.DEMOTED)
+
     def unreached(fid):
-        return reached is not None and fid in body_fns and fid not in reached
+        return fid in demoted or (reached is not None and fid in body_fns and fid not in reached)
 
     for m in g.marks:
         if prop in m['props']:
@@ -210,6 +232,11 @@ def obligations_for(prop, ur):
         if not c.get('inherited') and c['id'] in mark_props and not mark_props[c['id']][0] and not mark_props[c['id']][1]:
             obs.append({'id': c['id'], 'kind': 'proof-internal', 'fn': c.get('fn'), 'status': 'undecided',
                         'text': 'a contract clause that no property claims failed', 'diag': c})
+    for fid in sorted(demoted):
+        if prop in fprops.get(fid, []) or (prop == 'C13'):
+            obs.append({'id': fid + '#front-end', 'kind': 'proof-internal', 'fn': fid, 'status': 'undecided', 'unreached': True,
+                        'text': 'the verifier\'s front end rejects the current text of this function (with its proof annotations): ' +
+                                (ur.get('demoted_reason', {}).get(fid) or X.DEMOTE_REASON.get(fid) or ''), 'diag': None})
     # a verifier error in a function no property claims (e.g. a function the change added): never silently dropped
     lemma_names = set(l.name for l in g.unit.lemmas)
     for key in ('failed_safety', 'internal'):
@@ -353,7 +380,7 @@ def check_property(prop, tier, seed):
         for i in infra:
             log('INFRA: ' + i)
         for ob in undecided:
-            log('UNDECIDED (%s): %s' % ('verifier did not reach this function' if ob.get('unreached') else 'proof-internal, no semantic obligation failed', ob['id']))
+            log('UNDECIDED (%s): %s' % ('not verified: front end rejected the function or the verifier did not reach it' if ob.get('unreached') else 'proof-internal, no semantic obligation failed', ob['id']))
         for l in vio_lines:
             log(l)
         return 1
@@ -361,7 +388,9 @@ def check_property(prop, tier, seed):
         for i in infra:
             log('INFRA: ' + i)
         for ob in undecided:
-            log('UNDECIDED (%s): %s' % ('the verifier did not reach this function: an error elsewhere aborted its module' if ob.get('unreached') else 'proof needs maintenance, no semantic obligation failed', ob['id']))
+            log('UNDECIDED (%s): %s' % ('not verified: the front end rejected this function, or an error elsewhere kept the verifier from reaching it' if ob.get('unreached') else 'proof needs maintenance, no semantic obligation failed', ob['id']))
+            if ob.get('unreached') and ob.get('text') and ob['id'].endswith('#front-end'):
+                log('  ' + ob['text'][:300])
             d = ob.get('diag') or {}
             if d.get('rendered'):
                 log('  ' + d['rendered'].strip().replace('\n', '\n  ')[:800])
